@@ -42,9 +42,22 @@ var awkwardTables = [][]string{
 	{"/a/$m", "/a/*{w}"},           // a static sibling that sorts before '*' (seeded C01-3)
 	{"/a/~u", "/a/{x}", "/a/*{w}"}, // and one that sorts after '{'
 	{"/a/!b/c", "/a/{x}/c", "/a/*{w}/d"},
+	// witnesses TLC finds when one rule of the modelled walk (spec/FoxLookup.tla) is switched off: each is the smallest
+	// table of the model's pool on which that rule decides the answer (DESIGN.md 13.7)
+	{"/a", "/{x}"},                         // T1, T4: the first trailing-slash candidate is kept (request /a/)
+	{"/{x}/b/", "/{x}/bb", "/b{y}/*{y}/"},  // T2: ... also when a later branch ends on an intermediate node (/bb/b)
+	{"/a/ab/b/", "/a/{x}/b/", "/a/{x}/ba"}, // T2, the shape of seeded C08-3 (/a/ab/b)
+	{"/a/", "/{x}/"},                       // T3 (/a)
+	{"/a/{y}", "/*{w}/{y}"},                // T5: ... and across the sub-lookups of an infix catch-all (/a/b/)
+	{"a.b/a", "{h}.b/a"},                   // T6: ... and across hostname alternatives (a.b /a/)
+	{"/{x}", "/*{w}/b"},                    // S1: the catch-all next to a parameter is remembered (/a/b)
+	{"/a", "/{x}/b"},                       // S2: the parameter next to a static child is remembered (/ab/b/)
+	{"/a", "/*{w}"},                        // S3: the catch-all next to a static child is remembered (/ab, /abc/)
+	{"a.b/a", "a.{g}/"},                    // S4: the hostname parameter next to a static label is remembered (a.b /)
+	{"/{x}", "/*{w}"},                      // P1: the parameters of an abandoned branch are dropped (/a/b)
 }
 
-var awkwardPaths = []string{"/a/c", "/a/$n", "/a/~v", "/a/c/d", "/a/b/ab/abc", "/a/b/a/", "/ab/a/a", "/a", "/b/", "/abb/", "/abc/", "/a/a/a/a", "/a/a/a/ab", "/ab", "/a/b/b", "/a/b/", "/ab/b", "/ab/b/"}
+var awkwardPaths = []string{"/bb/b", "/a/ab/b", "/a/b/", "/ab/b/", "/a/b", "/a/", "/a/c", "/a/$n", "/a/~v", "/a/c/d", "/a/b/ab/abc", "/a/b/a/", "/ab/a/a", "/a", "/b/", "/abb/", "/abc/", "/a/a/a/a", "/a/a/a/ab", "/ab", "/a/b/b", "/a/b/", "/ab/b", "/ab/b/"}
 var awkwardHosts = []string{"b.a.a.a", "a.ab", "a.b.ab", "a.ab:8080", "aa.abb.abb", "a.b", "a.b.a", "a.b.b", "b.a.b"}
 
 type matchGen struct {
